@@ -33,6 +33,8 @@ Reason(r) ==
             admitted == r.res \in {"ok", "known"}
         IN IF r.res # x.res THEN
               (IF admitted /\ x.res = "hard" /\ ~HoursValidSingle(s, t) /\ TxnShapeValid(s, t) THEN "C03:admitted-hours"     \* the hours rule alone decides
+               ELSE IF admitted /\ x.res = "hard" /\ r.kind = "foreign" /\ r.softErr          \* pooled, and the verdict was "soft": both properties
+                    THEN "C06:hard-invalid-transaction-admitted+C11:hard-violation-reported-as-soft"
                ELSE IF admitted /\ x.res = "hard" THEN "C06:hard-invalid-transaction-admitted"
                ELSE IF admitted /\ x.res = "user" THEN "C06:user-rule-violating-transaction-admitted"
                ELSE IF admitted /\ x.res = "soft" THEN "C06:soft-invalid-user-transaction-admitted"
